@@ -1055,9 +1055,10 @@ func (t *TableCache) AddEventHandler(handler EventHandler) {
 func (t *TableCache) Run(stopCh <-chan struct{}) {
 	wg := sync.WaitGroup{}
 	wg.Add(1)
-	verifSpawn()
+	spawned := verifSpawn()
 	go func() {
 		defer wg.Done()
+		verifAdopt(spawned)
 		defer verifThreadDone()
 		t.eventProcessor.Run(stopCh)
 	}()
